@@ -68,9 +68,9 @@ def build_so(name, c_files, body, extra_cflags=(), define_err=True):
             pass
         if libm_ok:
             continue
-        stubs += 'void %s(void) { __builtin_trap(); }\n' % u
+        stubs += 'void %s(void) { fprintf(stderr, "verif: unexpected call to stubbed external %s\\n"); __builtin_trap(); }\n' % (u, u)
     spath = os.path.join(d, 'stubs.c')
-    open(spath, 'w').write(stubs)
+    open(spath, 'w').write('#include <stdio.h>\n' + stubs)
     p = subprocess.run(['gcc', '-shared', '-o', so, opath, spath, '-lm', '-w', '-fPIC'], capture_output=True, text=True)
     if p.returncode != 0:
         raise RuntimeError('native harness does not link: ' + p.stderr[-3000:])
